@@ -16,6 +16,12 @@ CLAIMED = {
             "DESIGN.md §4 C13"),
 }
 
+CLAIMED["C17"] = ("other",
+    "table agreement: all avp struct tags x merged dictionary XML (read from type-checked constants) x go-diameter's look-up/marshal rules; error-discipline and who-loads rules on go/ssa",
+    "Decides the dictionary clause exhaustively (every avp tag of ccs_diameter/datatype resolves by go-diameter's own look-up rule; Go field representation identical to the dictionary datatype so no value of the AVP's range is truncated; (code, vendor) unique per application; command codes / handler names defined; both dictionaries loaded before the SBI server starts; every Marshal/Unmarshal error tested on its own result; code constants equal dictionary codes). Value fidelity 'received == sent' then rests on go-diameter's serialisation, which is trusted, not analysed.",
+    "Trusted: go-diameter v3.0.2 Marshal/Unmarshal/FindAVP/Load semantics as read in its source; encoding/xml. Not decided: wire serialisation of each datatype; the values callers put in the fields.",
+    "DESIGN.md §4 C17")
+
 # id -> reason, for properties not (yet) claimed
 NOT_APPLICABLE = {
 }
